@@ -90,8 +90,9 @@ def run(case, max_steps=120000):
                 rec['ok'] = True
             finally:
                 state['running'] -= 1
-                rec['end'] = sim.now
-                rec['end_step'] = sim.steps
+                if not sim.aborted:
+                    rec['end'] = sim.now
+                    rec['end_step'] = sim.steps
 
         def delivered_now():
             got = set()
@@ -169,11 +170,12 @@ def run(case, max_steps=120000):
                 else:
                     await buf.wait(cancel=cancel)
             except aio.CancelledError:
-                rec['exc'] = 'cancelled'
-                raise
-            except GeneratorExit:      # coroutine closed at teardown of an aborted run
+                if not sim.aborted:
+                    rec['exc'] = 'cancelled'
                 raise
             except BaseException as e:  # noqa
+                if sim.aborted or isinstance(e, GeneratorExit):   # unwinding of an aborted run is not an observation
+                    raise
                 rec['exc'] = repr(e)
                 return
             rec['t_ret'] = sim.now
